@@ -1056,11 +1056,13 @@ impl<'s> Runner<'s> {
         self.restore_buffers(pkt, mb);
         self.log_obs(tag, engine, Some(pid), &obs);
         self.t(|| format!("    {}({}, pkt#{}, mb#{}) -> {}   [expected {}]", tag, engine.name(), pkt, mb, obs.outcome.short(), refs.iter().map(|r| r.1.outcome.short()).collect::<Vec<_>>().join(" or ")));
-        if self.sc.progs[pid].class == Class::MetaRead && self.sc.progs[pid].p1 & 0x100 != 0 && (case == Case::Interp || case == Case::Current) {
+        // (compiled code that outlived a failed re-compile is marked stale but is still this program's)
+        let ran = case == Case::Interp || case == Case::Current || (case == Case::Stale && obs.outcome.is_ok());
+        if self.sc.progs[pid].class == Class::MetaRead && self.sc.progs[pid].p1 & 0x100 != 0 && ran {
             let p = &self.sc.progs[pid];
             self.model.as_mut().unwrap().meta.insert(p.p0 as usize, p.p1 as u8);
         }
-        if self.sc.progs[pid].class == Class::MetaStore && (case == Case::Interp || case == Case::Current) {
+        if self.sc.progs[pid].class == Class::MetaStore && ran {
             // the program ran (to its end or into its failing load): its byte is in the buffer now
             let p = &self.sc.progs[pid];
             self.model.as_mut().unwrap().meta.insert(p.p0 as usize, p.p1 as u8);
@@ -1546,7 +1548,7 @@ impl<'s> Runner<'s> {
                 if let Some(Outcome::Signal(s)) = fresh_outcome {
                     return Err(Stop::Abort(format!("fresh VM: {} died with signal {}", opname, s)));
                 }
-                let predicted_fail = m.prog.is_none() || inject || fresh_outcome.as_ref().map(|o| !o.is_ok()).unwrap_or(false);
+                let predicted_fail = m.prog.is_none() || inject || inject_mp || fresh_outcome.as_ref().map(|o| !o.is_ok()).unwrap_or(false);
                 if predicted_fail {
                     self.sweep(at, Some(""))?;
                 }
